@@ -220,7 +220,7 @@ class _P:
         c = self.peek()
         if c == 0x28:
             self.i += 1
-            out = []
+            out = PList()
             if self.peek() == 0x29:
                 self.i += 1
                 return out
@@ -231,8 +231,10 @@ class _P:
                     self.i += 1
                     return out
                 if c == 0x28 and isinstance(out[-1], list):
+                    out.spaced.append(False)
                     continue        # ")(" adjacency (body / address lists)
                 self.sp()
+                out.spaced.append(True)
         if c in (0x22, 0x7b):
             return self.string()
         if c == 0x7e:
@@ -576,11 +578,23 @@ def _is_nstring(v) -> bool:
     return v is None or (isinstance(v, bytes) and not isinstance(v, Atom))
 
 
+class PList(list):
+    """A parsed parenthesised list; ``spaced[k]`` tells whether a space
+    stood between element k and element k+1."""
+
+    def __init__(self, *a):
+        super().__init__(*a)
+        self.spaced: list = []
+
+
 def _check_addr_list(v) -> str | None:
     if v is None:
         return None
     if not isinstance(v, list) or not v:
         return 'address list must be NIL or non-empty list'
+    if any(getattr(v, 'spaced', ())):
+        # env-to = "(" 1*address ")": nothing between the addresses
+        return 'space between addresses'
     for a in v:
         if not isinstance(a, list) or len(a) != 4 \
                 or not all(_is_nstring(x) for x in a):
@@ -667,6 +681,9 @@ def body_parts(v, path: tuple = ()) -> dict:
             n += 1
         if n >= len(v) or not _is_nstring(v[n]) or v[n] is None:
             raise ValueError('multipart must end in a subtype string')
+        if any(getattr(v, 'spaced', ())[:n - 1]):
+            # body-type-mpart = 1*body SP media-subtype
+            raise ValueError('space between the bodies of a multipart')
         out[path] = {'type': b'MULTIPART', 'subtype': v[n].upper(),
                      'children': n}
         for k in range(n):
